@@ -264,8 +264,12 @@ _RE_OPEN = re.compile(r"(\{%-?\s*(?:macro|block)\s[^%]*?%\})")
 
 def perturbed_text(rel, txt, level):
     """an edit of an input file that should show in the output if the file is used at all"""
-    if rel.endswith(".dsdl"):
-        return "uint8 c08probe\n" + txt
+    if rel.endswith(".dsdl"):  # one more field, after the leading directives / comments
+        lines = txt.split("\n")
+        i = 0
+        while i < len(lines) and (not lines[i].strip() or lines[i].lstrip().startswith(("#", "@union", "@deprecated"))):
+            i += 1
+        return "\n".join(lines[:i] + ["uint8 c08probe"] + lines[i:])
     if rel.endswith(".j2") and level == 0:
         return _RE_OPEN.sub(lambda m: m.group(1) + MARK, txt) + "\n" + MARK + "\n"
     return txt + "\n" + MARK + "\n"
@@ -445,7 +449,9 @@ def run_history(ctx, sb, case):
                 continue
             for rel, cls in select_probes(ctx, sb, case, listed_in, op[1]):
                 if h.unstable:
-                    h.notes.append("output of %s %s is not reproducible between two identical runs: influence of inputs cannot be established" % (o["lang"], opt_tag(o)))
+                    h.notes.append("output of %s%s%s is not reproducible between two identical runs: influence of inputs cannot be established there"
+                                   % (o["lang"], "" if o["tpl"] else " (built-in templates)",
+                                      " with --embed-auditing-info" if "--embed-auditing-info" in case.get("x", {}).get("extra", []) else ""))
                     break
                 infl = h.probe(rel, base)
                 h.raw.append({"m": "probe", "file": rel, "class": cls, "influences": infl, "listed": rel in listed_in})
@@ -465,11 +471,13 @@ def select_probes(ctx, sb, case, listed, policy):
     per_class = policy.get("unlisted_per_class", 99)
     rot = policy.get("rot", 0)
     chosen, seen = [], {}
-    likely = ("dsdl:lookup", "template:user-support", "template:builtin-support", "dsdl:root", "template:user")
+    o = case["o"]
     for rel, cls in cands:
         if rel in listed:
             continue
-        lim = per_class if cls in likely else policy.get("unlikely_per_class", 1)
+        # cannot matter by construction (FIND_FIRST ignores built-in type templates; "only" generates no types): a token probe
+        unlikely = (cls == "template:builtin" and o["tpl"]) or (o["gs"] == "only" and cls in ("dsdl:root", "dsdl:lookup", "template:user", "template:builtin"))
+        lim = policy.get("unlikely_per_class", 1) if unlikely else per_class
         if seen.get(cls, 0) < lim:
             chosen.append((rel, cls))
             seen[cls] = seen.get(cls, 0) + 1
@@ -675,28 +683,49 @@ def plan_for(ctx, exp, idx, tier_quick):
 # ------------------------------------------------------------------------------------------------ random namespace sets (code -> spec)
 def random_nsset(rng):
     """a valid DSDL namespace set: a root with nested namespaces, structures (sealed / delimited), unions, services, references to
-    earlier types of the root and into a chain of lookup roots (each may depend on the next), plus unused definitions"""
-    prims = ["uint8", "uint16", "int32", "float32", "bool", "uint7", "float64", "int9"]
+    earlier types of the root and into a chain of lookup roots (each may depend on the next), plus unused definitions.
+    An upper bound of every type's size is tracked so that explicit extents are always large enough (also after a probe field)."""
+    prims = [("uint8", 8), ("uint16", 16), ("int32", 32), ("float32", 32), ("bool", 8), ("uint7", 8), ("float64", 64), ("int9", 16)]
+
+    def fields(pool, n0, lo=1):
+        b, ub = [], 0
+        for fi in range(rng.randint(lo, 3)):
+            r = rng.random()
+            if pool and r < 0.55:
+                t, u = rng.choice(pool)
+                b.append("%s f%d" % (t, n0 + fi))
+                ub += u + 8
+            elif r < 0.7:
+                t, u = rng.choice(prims[:5])
+                cap = rng.randint(1, 5)
+                b.append("%s[<=%d] f%d" % (t, cap, n0 + fi))
+                ub += cap * u + 16
+            else:
+                t, u = rng.choice(prims)
+                b.append("%s f%d" % (t, n0 + fi))
+                ub += u + 8
+        return b, ub + 16
+
+    def end(ub):
+        if rng.random() < 0.6:
+            return "@sealed", ub + 16
+        ext = ((ub + 7) // 8 + 16) * 8
+        return "@extent %d" % ext, ext + 48
+
     nlook = rng.choice([0, 1, 1, 2, 3])
     roots = ["lk%s" % "abc"[i] for i in range(nlook)]
     sets = []
-    later = []  # (full type reference, root) defined so far in later lookup roots
+    later = []  # (type reference, size bound) defined in later lookup roots
     for ri in reversed(range(nlook)):
         files, mine = {}, []
         for ti in range(rng.randint(1, 3)):
             sub = rng.choice(["", "", "n%d" % rng.randint(0, 1), "n0/m%d" % rng.randint(0, 1)])
             name = "L%d%d" % (ri, ti)
-            body = []
-            for fi in range(rng.randint(1, 3)):
-                pool = mine + later
-                if pool and rng.random() < 0.5:
-                    body.append("%s f%d" % (rng.choice(pool), fi))
-                else:
-                    body.append("%s f%d" % (rng.choice(prims), fi))
-            body.append(rng.choice(["@sealed", "@sealed", "@extent %d * 8" % rng.choice([64, 128])]))
+            body, ub = fields(mine + later, 0)
+            e, ub = end(ub)
             rel = "/".join(x for x in (roots[ri], sub) if x) + "/%s.1.%d.dsdl" % (name, ti % 2)
-            files[rel] = "\n".join(body) + "\n"
-            mine.append(".".join(x for x in [roots[ri]] + (sub.split("/") if sub else []) if x) + ".%s.1.%d" % (name, ti % 2))
+            files[rel] = "\n".join(body + [e]) + "\n"
+            mine.append((".".join(x for x in [roots[ri]] + (sub.split("/") if sub else []) if x) + ".%s.1.%d" % (name, ti % 2), ub))
         sets.insert(0, {"root": roots[ri], "files": files})
         later = mine + later
     root = "rt"
@@ -705,31 +734,22 @@ def random_nsset(rng):
         sub = rng.choice(["", "", "s%d" % rng.randint(0, 1), "s0/t%d" % rng.randint(0, 1), "s1/gap/u0"])
         name = "T%d" % ti
         kind = rng.choice(["struct", "struct", "struct", "union", "service"])
-
-        def fields(n0, lo=1):
-            b = []
-            for fi in range(rng.randint(lo, 3)):
-                pool = mine + later
-                r = rng.random()
-                if pool and r < 0.55:
-                    b.append("%s f%d" % (rng.choice(pool), n0 + fi))
-                elif r < 0.7:
-                    b.append("%s[<=%d] f%d" % (rng.choice(prims[:5]), rng.randint(1, 5), n0 + fi))
-                else:
-                    b.append("%s f%d" % (rng.choice(prims), n0 + fi))
-            return b
-
-        end = lambda: rng.choice(["@sealed", "@sealed", "@extent %d * 8" % rng.choice([256, 512])])
         if kind == "struct":
-            body = fields(0) + [end()]
+            body, ub = fields(mine + later, 0)
+            e, ub = end(ub)
+            body.append(e)
         elif kind == "union":
-            body = ["@union"] + fields(0, 2) + [end()]
+            body, ub = fields(mine + later, 0, 2)
+            e, ub = end(ub)
+            body = ["@union"] + body + [e]
         else:
-            body = fields(0) + [end(), "---"] + fields(5) + [end()]
+            b1, u1 = fields(mine + later, 0)
+            b2, u2 = fields(mine + later, 5)
+            body = b1 + [end(u1)[0], "---"] + b2 + [end(u2)[0]]
         rel = "/".join(x for x in (root, sub) if x) + "/%s.%d.%d.dsdl" % (name, 1 + ti % 2, ti % 3)
         files[rel] = "\n".join(body) + "\n"
         if kind != "service":
-            mine.append(".".join([root] + (sub.split("/") if sub else [])) + ".%s.%d.%d" % (name, 1 + ti % 2, ti % 3))
+            mine.append((".".join([root] + (sub.split("/") if sub else [])) + ".%s.%d.%d" % (name, 1 + ti % 2, ti % 3), ub))
     return {"root": root, "rootfiles": files, "lookups": sets}
 
 
@@ -825,7 +845,7 @@ def account(ctx, cases, results):
         for pr in (r for r in h.raw if r["m"] == "probe"):
             ctx.distinct("probe|%s|%s|%s|%s" % (o["lang"], opt_tag(o), pr["class"], pr["influences"]))
         for n in h.notes:
-            if len(ctx.cov["not_exercised"]) < 12:
+            if n not in ctx.cov["not_exercised"] and len(ctx.cov["not_exercised"]) < 16:
                 ctx.not_exercised(n)
 
 
@@ -907,7 +927,7 @@ def run(ctx):
     judge(ctx, pool, amb, amb_res)
 
     # ---- 4. code -> spec: random namespace sets x random options x shuffled mode order
-    n_rand = ctx.pick(48, 400)
+    n_rand = ctx.pick(40, 400)
     rcases = [random_case(ctx.rng, 200000 + i) for i in range(n_rand)]
     rres = pool.map(rcases)
     account(ctx, rcases, rres)
